@@ -131,7 +131,6 @@ Proof.
   - destruct (assoc_get n (st_get (e_procs E) (sp ss))) eqn:E1.
     + apply get_In in E1. eapply Hp; eauto.
     + apply get_In in H. eapply Ha; eauto.
-  - apply get_In in H. eapply Ha; eauto.
 Qed.
 
 Definition out_ok (P : str -> Prop) (out : list res) : Prop :=
@@ -144,15 +143,8 @@ Lemma step_keys (P : str -> Prop) s ev :
 Proof.
   intros Hev Hss Hout. destruct ev as [Sc|]; simpl.
   - specialize (Hev Sc eq_refl). unfold enter_scope.
-    set (parent := parent_env Sc (st_stack s)).
     set (ss := st_stores s) in *. destruct Hss as (Hp & Ha & Hy).
-    set (mk := fun c => match s_kind Sc with
-                        | KSub => update (update (update [] (own Sc (own_names Sc c)))
-                                    (match find_unit_env (st_units s) (s_host Sc) with Some E => tab ss E c | None => [] end))
-                                    (imports_of Sc c)
-                        | _ => update (update (match parent with Some E => tab ss E c | None => [] end)
-                                              (own Sc (own_names Sc c))) (imports_of Sc c)
-                        end).
+    set (mk := fun c => scope_table Sc c (match host_env Sc s with Some E => tab ss E c | None => [] end)).
     assert (Hmk : forall c, (forall i k e, In (k, e) (st_get i (store_of ss c)) -> P k) ->
                             forall k e, In (k, e) (mk c) -> P k).
     { intros c Hc.
@@ -162,13 +154,10 @@ Proof.
       { intros k e H. apply (Hev c k e). apply in_app_iff. now right. }
       assert (Htab : forall E k e, In (k, e) (tab ss E c) -> P k).
       { intros E k e H. unfold tab in H. eapply Hc; eauto. }
-      unfold mk. destruct (s_kind Sc).
-      - apply update_keys; auto. apply update_keys; auto. destruct parent; [apply Htab | intros k e []].
-      - apply update_keys; auto. apply update_keys; auto. destruct parent; [apply Htab | intros k e []].
-      - apply update_keys; auto. apply update_keys; auto. destruct parent; [apply Htab | intros k e []].
-      - apply update_keys; auto. apply update_keys.
-        + apply update_keys; auto. intros k e [].
-        + destruct (find_unit_env (st_units s) (s_host Sc)); [apply Htab | intros k e []]. }
+      assert (Hbase : forall k e, In (k, e) (match host_env Sc s with Some E => tab ss E c | None => [] end) -> P k).
+      { destruct (host_env Sc s); [apply Htab | intros k e []]. }
+      unfold mk, scope_table. apply update_keys; auto. apply update_keys; auto.
+      destruct c; auto. intros k e H. unfold drop in H. apply filter_In in H as [H _]. eauto. }
     assert (Hss' : stores_ok P {| sp := st_set (st_next s) (mk CProc) (sp ss);
                                   sa := st_set (st_next s) (mk CAbs) (sa ss);
                                   sy := st_set (st_next s) (mk CType) (sy ss) |}).
@@ -272,7 +261,7 @@ Proof.
 Qed.
 
 (* the look-up along a host chain, innermost scope first *)
-Fixpoint stack_look (f : srec -> option ent) (l : list srec) : option ent :=
+Fixpoint stack_look {A} (f : srec -> option A) (l : list srec) : option A :=
   match l with
   | [] => None
   | Sc :: r => match f Sc with Some e => Some e | None => stack_look f r end
@@ -294,14 +283,14 @@ Proof.
   - apply IH. intros Sc HS. apply H. now right.
 Qed.
 
-Lemma stack_look_in (f : srec -> option ent) l e :
+Lemma stack_look_in {A} (f : srec -> option A) l e :
   stack_look f l = Some e -> exists Sc, In Sc l /\ f Sc = Some e.
 Proof.
   induction l as [|X l IH]; simpl; [discriminate|]. destruct (f X) eqn:E.
   - intros H; injection H as <-. eauto.
   - intros H. apply IH in H as (Sc & HS & Hf). eauto.
 Qed.
-Lemma stack_look_some (f : srec -> option ent) l Sc :
+Lemma stack_look_some {A} (f : srec -> option A) l Sc :
   In Sc l -> f Sc <> None -> stack_look f l <> None.
 Proof.
   induction l as [|X l IH]; simpl; [tauto|]. intros [->|H] Hf.
@@ -323,7 +312,7 @@ Fixpoint gchain (all : list srec) (l : list srec) : Prop :=
 Lemma gchain_app_r all a b : gchain all (a ++ b) -> gchain all b.
 Proof. induction a as [|x a IH]; simpl; auto. intros (_ & _ & H). auto. Qed.
 
-Lemma resolve_fuel_stack all (f : srec -> option ent) :
+Lemma resolve_fuel_stack {A} all (f : srec -> option A) :
   NoDup (map s_path all) -> (forall Sc, In Sc all -> s_path Sc <> []) ->
   forall l, gchain all l -> (forall Sc, In Sc l -> In Sc all) ->
   forall Sc r, l = Sc :: r -> forall fuel, length l <= fuel ->
@@ -340,12 +329,12 @@ Proof.
   - apply (IH Hc (fun S0 HS0 => Hin S0 (or_intror HS0)) H r' eq_refl). simpl in *. lia.
 Qed.
 
-Lemma spec_resolver_stack all l Sc r lk n :
+Lemma walk_stack {A} all l Sc r (f : srec -> option A) :
   NoDup (map s_path all) -> (forall S0, In S0 all -> s_path S0 <> []) ->
   gchain all l -> (forall S0, In S0 l -> In S0 all) -> l = Sc :: r -> length l <= length all ->
-  spec_resolver all (s_path Sc) lk n = stack_look (fun S0 => look_in S0 lk n) l.
+  walk all (s_path Sc) f = stack_look f l.
 Proof.
-  intros ND NE Hc Hin El Hlen. unfold spec_resolver.
+  intros ND NE Hc Hin El Hlen. unfold walk.
   apply (resolve_fuel_stack all _ ND NE l Hc Hin Sc r El). lia.
 Qed.
 
@@ -353,11 +342,7 @@ Qed.
 Fixpoint tabf (c : cls) (hosts : list srec) : table :=
   match hosts with
   | [] => []
-  | Sc :: r =>
-    match s_kind Sc with
-    | KSub => update (update (update [] (own Sc (own_names Sc c))) (tabf c r)) (imports_of Sc c)
-    | _ => update (update (tabf c r) (own Sc (own_names Sc c))) (imports_of Sc c)
-    end
+  | Sc :: r => scope_table Sc c (tabf c r)
   end.
 
 Lemma keys_set (k : str) (v : ent) t : forall x, In x (map fst (assoc_set k v t)) <-> x = k \/ In x (map fst t).
@@ -391,19 +376,31 @@ Proof.
     + apply str_eqb_eq in E. subst k'. exfalso. apply Hn. now apply (in_map fst) in H.
     + auto.
 Qed.
+Lemma nodup_drop names (t : table) : NoDup (map fst t) -> NoDup (map fst (drop names t)).
+Proof.
+  unfold drop. induction t as [|[k v] t IH]; simpl; intros ND; [constructor|].
+  inversion ND as [|? ? Hn ND']; subst. destruct (negb (str_in k names)); simpl; auto.
+  constructor; auto. intros H. apply Hn. apply in_map_iff in H as (x & E & Hx). apply filter_In in Hx as [Hx _].
+  apply in_map_iff. eauto.
+Qed.
 Lemma tabf_nodup c l : NoDup (map fst (tabf c l)).
 Proof.
   induction l as [|Sc r IH]; simpl; [constructor|].
-  destruct (s_kind Sc); repeat apply nodup_update; auto; constructor.
+  unfold scope_table. repeat apply nodup_update. destruct c; auto. now apply nodup_drop.
 Qed.
-
-(* a submodule's own declarations are not names of its host chain *)
-Fixpoint subs_ok (c : cls) (l : list srec) : Prop :=
-  match l with
-  | [] => True
-  | Sc :: r => (s_kind Sc = KSub -> forall n, In n (own_names Sc c) ->
-                stack_look (fun S0 => local_lookup S0 c n) r = None) /\ subs_ok c r
-  end.
+Lemma drop_get names (t : table) n :
+  NoDup (map fst t) ->
+  assoc_get n (drop names t) = if str_in n names then None else assoc_get n t.
+Proof.
+  unfold drop. induction t as [|[k v] t IH]; simpl; intros ND.
+  - now destruct (str_in n names).
+  - inversion ND as [|? ? Hn ND']; subst. specialize (IH ND').
+    destruct (str_eqb n k) eqn:E.
+    + apply str_eqb_eq in E. subst k. destruct (str_in n names) eqn:Es; simpl.
+      * rewrite IH. reflexivity.
+      * now rewrite str_eqb_refl.
+    + destruct (negb (str_in k names)); simpl; [rewrite E|]; exact IH.
+Qed.
 
 Lemma scope_legal_facts Sc c :
   scope_legal Sc = true ->
@@ -426,47 +423,86 @@ Proof.
     apply (Hn (s_path Sc ++ [n])). unfold own. apply in_map_iff. exists n. auto.
 Qed.
 
-(* the dictionary of a scope answers as Fortran's host association does, class by class *)
+(* one step: own declarations over the base, the use-associated names over both *)
+Lemma layer_get Sc c n (base : table) :
+  scope_legal Sc = true ->
+  assoc_get n (update (update base (own Sc (own_names Sc c))) (imports_of Sc c))
+  = match local_lookup Sc c n with Some e => Some e | None => assoc_get n base end.
+Proof.
+  intros Hl. destruct (scope_legal_facts Sc c Hl) as [Hf Hd].
+  destruct (update_get_or n (update base (own Sc (own_names Sc c))) (imports_of Sc c)) as [(v & Hin & E)|(Hn & E)];
+    rewrite E.
+  - unfold local_lookup.
+    assert (Hno : str_in n (own_names Sc c) = false).
+    { apply str_in_false. intros Ho. apply (Hd n Ho). now apply (in_map fst) in Hin. }
+    rewrite Hno. destruct (In_get_some _ _ _ Hin) as (v' & Ev'). rewrite Ev'. f_equal.
+    apply get_In in Ev'. apply (Hf n); assumption.
+  - assert (Eg : assoc_get n (imports_of Sc c) = None).
+    { destruct (assoc_get n (imports_of Sc c)) eqn:G; auto. apply get_In in G. now apply Hn in G. }
+    rewrite own_get. unfold local_lookup. rewrite Eg.
+    destruct (str_in n (own_names Sc c)); reflexivity.
+Qed.
+
+(* the dictionaries of types and of abstract interfaces answer as Fortran's host association does *)
 Lemma tabf_get c hosts n :
-  (forall Sc, In Sc hosts -> scope_legal Sc = true) -> subs_ok c hosts ->
+  c <> CProc ->
+  (forall Sc, In Sc hosts -> scope_legal Sc = true) ->
   assoc_get n (tabf c hosts) = stack_look (fun Sc => local_lookup Sc c n) hosts.
 Proof.
-  induction hosts as [|Sc r IH]; intros Hl Hsub; [reflexivity|]. simpl.
-  destruct (scope_legal_facts Sc c (Hl Sc (or_introl eq_refl))) as [Hf Hd].
-  destruct Hsub as [Hsub Hsubr].
+  intros Hc. induction hosts as [|Sc r IH]; intros Hl; [reflexivity|]. simpl.
   assert (IHr : assoc_get n (tabf c r) = stack_look (fun S0 => local_lookup S0 c n) r).
   { apply IH; auto. intros S0 H0. apply Hl. now right. }
-  assert (Himp : forall T : table,
-            (exists v, In (n, v) (imports_of Sc c) /\ assoc_get n (update T (imports_of Sc c)) = Some v /\
-                       local_lookup Sc c n = Some v) \/
-            ((forall v, ~ In (n, v) (imports_of Sc c)) /\ assoc_get n (update T (imports_of Sc c)) = assoc_get n T /\
-             assoc_get n (imports_of Sc c) = None)).
-  { intros T. destruct (update_get_or n T (imports_of Sc c)) as [(v & Hin & E)|(Hn & E)].
-    - left. exists v. repeat split; auto. unfold local_lookup.
-      assert (Hno : str_in n (own_names Sc c) = false).
-      { apply str_in_false. intros Ho. apply (Hd n Ho). now apply (in_map fst) in Hin. }
-      rewrite Hno. destruct (In_get_some _ _ _ Hin) as (v' & Ev'). rewrite Ev'. f_equal.
-      apply get_In in Ev'. apply (Hf n); assumption.
-    - right. repeat split; auto. destruct (assoc_get n (imports_of Sc c)) eqn:G; auto.
-      apply get_In in G. now apply Hn in G. }
-  destruct (s_kind Sc) eqn:Ek.
-  1-3: (destruct (Himp (update (tabf c r) (own Sc (own_names Sc c)))) as [(v & _ & E & El)|(_ & E & Eg)]; rewrite E;
-        [now rewrite El|]; rewrite own_get; unfold local_lookup; rewrite Eg;
-        destruct (str_in n (own_names Sc c)); auto).
-  (* a submodule: own declarations, then the host's table over them, then the imports *)
-  destruct (Himp (update (update [] (own Sc (own_names Sc c))) (tabf c r))) as [(v & _ & E & El)|(_ & E & Eg)]; rewrite E;
-    [now rewrite El|].
-  assert (Ell : local_lookup Sc c n = if str_in n (own_names Sc c) then Some (s_path Sc ++ [n]) else None).
-  { unfold local_lookup. rewrite Eg. reflexivity. }
-  rewrite Ell.
-  destruct (update_get_or n (update [] (own Sc (own_names Sc c))) (tabf c r)) as [(v & Hin & E')|(Hn & E')]; rewrite E'.
-  - apply (In_get_nodup _ _ _ (tabf_nodup c r)) in Hin. rewrite IHr in Hin.
-    destruct (str_in n (own_names Sc c)) eqn:Eo; [|now rewrite Hin].
-    apply str_in_In in Eo. rewrite (Hsub eq_refl n Eo) in Hin. discriminate.
-  - rewrite own_get. simpl.
-    assert (En : assoc_get n (tabf c r) = None).
-    { destruct (assoc_get n (tabf c r)) eqn:G; auto. apply get_In in G. now apply Hn in G. }
-    rewrite IHr in En. rewrite En. destruct (str_in n (own_names Sc c)); reflexivity.
+  assert (E : scope_table Sc c (tabf c r) = update (update (tabf c r) (own Sc (own_names Sc c))) (imports_of Sc c)).
+  { destruct c; try reflexivity. congruence. }
+  rewrite E, (layer_get Sc c n _ (Hl Sc (or_introl eq_refl))), IHr. reflexivity.
+Qed.
+
+Lemma local_abs_none Sc n :
+  local_lookup Sc CAbs n = None <-> str_in n (abs_names Sc) = false.
+Proof.
+  unfold local_lookup, abs_names. simpl.
+  assert (E2 : forall l1 l2, str_in n (l1 ++ l2) = str_in n l1 || str_in n l2).
+  { induction l1; simpl; intros; auto. now rewrite IHl1, orb_assoc. }
+  rewrite E2. destruct (str_in n (s_abs Sc)) eqn:E; simpl; [split; discriminate|].
+  split.
+  - intros H. apply str_in_false. intros Hin. apply in_map_iff in Hin as ([k v] & Ek & Hin). simpl in Ek. subst k.
+    destruct (In_get_some _ _ _ Hin) as (v' & Ev). congruence.
+  - intros H. apply str_in_false in H. destruct (assoc_get n (imports_of Sc CAbs)) eqn:G; auto.
+    apply get_In in G. exfalso. apply H. apply in_map_iff. exists (n, e). auto.
+Qed.
+
+(* the dictionary of procedures: the innermost scope that has n as a procedure or as an abstract
+   interface decides; n is there only if it is a procedure *)
+Lemma tabf_get_proc hosts n :
+  (forall Sc, In Sc hosts -> scope_legal Sc = true) ->
+  assoc_get n (tabf CProc hosts)
+  = match stack_look (fun Sc => look_pa Sc n) hosts with Some (true, e) => Some e | _ => None end.
+Proof.
+  induction hosts as [|Sc r IH]; intros Hl; [reflexivity|]. simpl.
+  assert (IHr : assoc_get n (tabf CProc r)
+                = match stack_look (fun S0 => look_pa S0 n) r with Some (true, e) => Some e | _ => None end).
+  { apply IH; auto. intros S0 H0. apply Hl. now right. }
+  unfold scope_table. rewrite (layer_get Sc CProc n _ (Hl Sc (or_introl eq_refl))).
+  unfold look_pa at 1. destruct (local_lookup Sc CProc n) as [e|]; [reflexivity|].
+  rewrite (drop_get _ _ n (tabf_nodup CProc r)).
+  destruct (local_lookup Sc CAbs n) as [a|] eqn:Ea.
+  - destruct (str_in n (abs_names Sc)) eqn:E1; auto.
+    apply local_abs_none in E1. congruence.
+  - apply local_abs_none in Ea. rewrite Ea. exact IHr.
+Qed.
+
+(* when the innermost scope that knows n has it as an abstract interface, that is the abstract
+   interface the dictionary of abstract interfaces holds; when no scope knows n, none *)
+Lemma pa_abs hosts n :
+  match stack_look (fun Sc => look_pa Sc n) hosts with
+  | Some (true, _) => True
+  | Some (false, a) => stack_look (fun Sc => local_lookup Sc CAbs n) hosts = Some a
+  | None => stack_look (fun Sc => local_lookup Sc CAbs n) hosts = None
+  end.
+Proof.
+  induction hosts as [|Sc r IH]; simpl; auto. unfold look_pa at 1.
+  destruct (local_lookup Sc CProc n); [exact I|].
+  destruct (local_lookup Sc CAbs n); [reflexivity|]. exact IH.
 Qed.
 
 (* ---- the invariant of the traversal *)
@@ -514,13 +550,7 @@ Proof.
 Qed.
 Lemma enter_tab_new Sc s c :
   tab (st_stores (enter_scope Sc s)) (new_env Sc s) c
-  = match s_kind Sc with
-    | KSub => update (update (update [] (own Sc (own_names Sc c)))
-                             (match find_unit_env (st_units s) (s_host Sc) with
-                              | Some E => tab (st_stores s) E c | None => [] end)) (imports_of Sc c)
-    | _ => update (update (match parent_env Sc (st_stack s) with Some E => tab (st_stores s) E c | None => [] end)
-                          (own Sc (own_names Sc c))) (imports_of Sc c)
-    end.
+  = scope_table Sc c (match host_env Sc s with Some E => tab (st_stores s) E c | None => [] end).
 Proof. unfold tab, enter_scope, new_env. destruct c; simpl; now rewrite st_get_set_same. Qed.
 
 Lemma find_unit_env_key units p :
@@ -584,7 +614,7 @@ Proof.
     + rewrite enter_stack, Hs. simpl. repeat split; auto. rewrite (next_path_of all Sc Hfind), Hh. exact Hrm.
     + rewrite enter_stack, Hs. simpl. lia.
     + rewrite enter_stack, Hs. intros pre E post c Hst. destruct pre as [|X pre]; simpl in Hst.
-      * injection Hst as <- <-. rewrite enter_tab_new, Hk. unfold parent_env. rewrite Hk. simpl. rewrite Hk. reflexivity.
+      * injection Hst as <- <-. rewrite enter_tab_new. unfold host_env, parent_env. rewrite Hk. reflexivity.
       * injection Hst as _ Hst. destruct pre; discriminate.
   - (* a submodule on the empty stack *)
     destruct (path_len1 _ Hl) as [Hne Hrm].
@@ -597,7 +627,7 @@ Proof.
       * rewrite enter_stack, Hs. simpl. repeat split; auto. rewrite (next_path_of all Sc Hfind), Hh. exact Hrm.
       * rewrite enter_stack, Hs. simpl. lia.
       * rewrite enter_stack, Hs. intros pre E post c Hst. destruct pre as [|X pre]; simpl in Hst.
-        -- injection Hst as <- <-. rewrite enter_tab_new, Hk, Hh, Hnounit. simpl. rewrite Hk. reflexivity.
+        -- injection Hst as <- <-. rewrite enter_tab_new. unfold host_env. rewrite Hk, Hh, Hnounit. reflexivity.
         -- injection Hst as _ Hst. destruct pre; discriminate.
     + destruct (find_unit_env_key _ _ Hh) as (Eh & Efind).
       destruct (Iun _ _ Efind) as (Hp & Hidh & l & Hin & Hg & Htab & Hlen).
@@ -609,12 +639,11 @@ Proof.
         rewrite (next_path_of all Sc Hfind). destruct (s_host Sc) eqn:Eh'; [congruence|]. now rewrite Hp.
       * rewrite enter_stack, Hs. simpl. simpl in Hlen. lia.
       * rewrite enter_stack, Hs. intros pre E post c Hst. destruct pre as [|X pre]; simpl in Hst.
-        -- injection Hst as <- <-. rewrite enter_tab_new, Hk, Efind. simpl. rewrite Hk. now rewrite Htab.
+        -- injection Hst as <- <-. rewrite enter_tab_new. unfold host_env. rewrite Hk, Efind. simpl. now rewrite Htab.
         -- injection Hst as _ Hst. destruct pre; discriminate.
   - (* a scope inside its host *)
-    assert (Hpar : parent_env Sc (st_stack s) = Some E0).
-    { unfold parent_env. rewrite Hs. destruct Hk as [-> | ->]; reflexivity. }
-    assert (Hknd : s_kind Sc <> KSub) by (destruct Hk as [-> | ->]; discriminate).
+    assert (Hpar : host_env Sc s = Some E0).
+    { unfold host_env, parent_env. rewrite Hs. destruct Hk as [-> | ->]; reflexivity. }
     exists hc. constructor; auto.
     + rewrite enter_stack. simpl. intros S0 [<-|H]; auto.
     + rewrite enter_stack. simpl. split; [exact Hn|]. split; [|exact Ich].
@@ -622,8 +651,7 @@ Proof.
     + rewrite enter_stack. simpl. lia.
     + rewrite enter_stack. intros pre E post c Hst. destruct pre as [|X pre]; simpl in Hst; injection Hst as <- Hst.
       * subst post. rewrite enter_tab_new, Hpar. simpl.
-        rewrite (Itab [] E0 rest c Hs). rewrite Hs. simpl.
-        destruct (s_kind Sc); try reflexivity. congruence.
+        rewrite (Itab [] E0 rest c Hs). rewrite Hs. reflexivity.
       * assert (HE : In E (st_stack s)) by (rewrite Hst; apply in_app_iff; right; now left).
         rewrite enter_tab_old by (now apply Iid). now apply (Itab pre E post c).
 Qed.
@@ -671,82 +699,43 @@ Proof.
 Qed.
 
 (* ---- the answers *)
-Lemma look_in_class lk c n :
-  match lk, c with LType, CType | LProc, CProc | LAbs, CAbs => True | _, _ => False end ->
-  forall hosts, stack_look (fun Sc => look_in Sc lk n) hosts = stack_look (fun Sc => local_lookup Sc c n) hosts.
-Proof. intros H hosts. destruct lk, c; try tauto; reflexivity. Qed.
-
-Definition cls_look (c : cls) : look := match c with CType => LType | CProc => LProc | CAbs => LAbs end.
-Lemma cls_look_in c n l :
-  stack_look (fun S0 => look_in S0 (cls_look c) n) l = stack_look (fun S0 => local_lookup S0 c n) l.
-Proof. destruct c; reflexivity. Qed.
-
-(* from the decidable region predicate to the chain form *)
-Definition sub_free (all : list srec) : Prop :=
-  forall Sc c n, In Sc all -> s_kind Sc = KSub -> In n (own_names Sc c) ->
-  spec_resolver all (s_host Sc) (cls_look c) n = None.
-Lemma subs_ok_of all c l :
-  NoDup (map s_path all) -> (forall S0, In S0 all -> s_path S0 <> []) -> sub_free all ->
-  (forall S0, In S0 all -> s_kind S0 = KSub -> length (s_path S0) = 1) ->
-  gchain all l -> (forall S0, In S0 l -> In S0 all) -> length l <= length all ->
-  subs_ok c l.
-Proof.
-  intros ND NE SF Hsub1. induction l as [|Sc r IH]; intros Hg Hin Hlen; simpl; auto.
-  destruct Hg as (Hne & Hnext & Hg). split.
-  - intros Hk n Hn. destruct r as [|H r']; [reflexivity|].
-    pose proof (SF Sc c n (Hin Sc (or_introl eq_refl)) Hk Hn) as Hs.
-    rewrite (next_path_of all Sc (find_scope_unique all Sc ND (Hin Sc (or_introl eq_refl)))) in Hnext.
-    assert (Hh : s_host Sc = s_path H).
-    { destruct (s_host Sc) eqn:Eh; [|exact Hnext].
-      (* no host recorded: a submodule is a unit, its path has one name, the chain ends *)
-      exfalso. destruct (path_len1 _ (Hsub1 Sc (Hin Sc (or_introl eq_refl)) Hk)) as [_ Hrm].
-      rewrite Hrm in Hnext. apply (NE H); [apply Hin; right; now left | now symmetry]. }
-    rewrite Hh in Hs. rewrite <- (cls_look_in c n (H :: r')).
-    rewrite <- Hs. symmetry.
-    apply (spec_resolver_stack all (H :: r') H r'); auto.
-    + intros S0 HS0. apply Hin. now right.
-    + simpl in *. lia.
-  - apply IH; auto.
-    + intros S0 HS0. apply Hin. now right.
-    + simpl in Hlen. lia.
-Qed.
-
 Lemma answers_agree all bound hc s E rest reqs :
   NoDup (map s_path all) -> (forall S0, In S0 all -> s_path S0 <> []) ->
-  (forall S0, In S0 all -> scope_legal S0 = true) -> sub_free all ->
-  (forall S0, In S0 all -> s_kind S0 = KSub -> length (s_path S0) = 1) ->
+  (forall S0, In S0 all -> scope_legal S0 = true) ->
   Inv all bound hc s -> bound <= length all -> st_stack s = E :: rest ->
   map (answer (model_resolver (st_stores s) E)) reqs
-  = map (answer (procs_first (spec_resolver all (s_path (e_scope E))))) reqs.
+  = map (answer (spec_resolver all (s_path (e_scope E)))) reqs.
 Proof.
-  intros ND NE LG SF Hsub1 [Iin Ich Ilen Itab Iid Iun] Hb Hs. apply map_ext_in. intros q _.
+  intros ND NE LG [Iin Ich Ilen Itab Iid Iun] Hb Hs. apply map_ext_in. intros q _.
   unfold answer. f_equal. rewrite Hs in *.
   set (l := map e_scope (E :: rest) ++ hc) in *.
   assert (Hl : l = e_scope E :: (map e_scope rest ++ hc)) by reflexivity.
   assert (Hlen : length l <= length all) by lia.
   assert (Hleg : forall S0, In S0 l -> scope_legal S0 = true) by (intros S0 H; apply LG; auto).
-  assert (Hspec : forall lk n, spec_resolver all (s_path (e_scope E)) lk n
-                               = stack_look (fun S0 => look_in S0 lk n) l).
-  { intros lk n. apply (spec_resolver_stack all l (e_scope E) (map e_scope rest ++ hc)); auto. }
-  assert (Htab : forall c n, assoc_get n (tab (st_stores s) E c) = stack_look (fun S0 => local_lookup S0 c n) l).
-  { intros c n. rewrite (Itab [] E rest c eq_refl). apply tabf_get; auto.
-    apply (subs_ok_of all c l); auto. }
-  unfold model_resolver, procs_first. destruct (q_look q).
-  - rewrite Htab, Hspec. symmetry. now apply (look_in_class LType CType).
-  - rewrite Htab, Hspec. symmetry. now apply (look_in_class LProc CProc).
-  - rewrite !Htab, !Hspec. rewrite (look_in_class LProc CProc), (look_in_class LAbs CAbs) by exact I. reflexivity.
-  - rewrite Htab, Hspec. symmetry. now apply (look_in_class LAbs CAbs).
+  assert (Hwalk : forall A (f : srec -> option A), walk all (s_path (e_scope E)) f = stack_look f l).
+  { intros A f. apply (walk_stack all l (e_scope E) (map e_scope rest ++ hc)); auto. }
+  assert (Htab : forall c n, c <> CProc ->
+            assoc_get n (tab (st_stores s) E c) = stack_look (fun S0 => local_lookup S0 c n) l).
+  { intros c n Hc. rewrite (Itab [] E rest c eq_refl). apply tabf_get; auto. }
+  assert (Hproc : forall n, assoc_get n (tab (st_stores s) E CProc)
+            = match stack_look (fun S0 => look_pa S0 n) l with Some (true, e) => Some e | _ => None end).
+  { intros n. rewrite (Itab [] E rest CProc eq_refl). apply tabf_get_proc; auto. }
+  unfold model_resolver, spec_resolver. destruct (q_look q).
+  - rewrite Htab by discriminate. now rewrite Hwalk.
+  - rewrite Hproc, Hwalk. reflexivity.
+  - rewrite Hproc, Hwalk, Htab by discriminate.
+    pose proof (pa_abs l (q_name q)) as Hpa.
+    destruct (stack_look (fun S0 => look_pa S0 (q_name q)) l) as [[[|] e]|]; auto.
 Qed.
 
 Definition chunkE (all : list srec) (Sc : srec) : list res :=
-  map (answer (procs_first (spec_resolver all (s_path Sc)))) (enter_reqs Sc).
+  map (answer (spec_resolver all (s_path Sc))) (enter_reqs Sc).
 Definition chunkX (all : list srec) (Sc : srec) : list res :=
-  map (answer (procs_first (spec_resolver all (s_path Sc)))) (exit_reqs Sc).
+  map (answer (spec_resolver all (s_path Sc))) (exit_reqs Sc).
 
 Lemma run_spec all :
   NoDup (map s_path all) -> (forall S0, In S0 all -> s_path S0 <> []) ->
-  (forall S0, In S0 all -> scope_legal S0 = true) -> sub_free all ->
-  (forall S0, In S0 all -> s_kind S0 = KSub -> length (s_path S0) = 1) ->
+  (forall S0, In S0 all -> scope_legal S0 = true) ->
   forall post s entered exited hc,
   all = entered ++ scopes_of post ->
   wf_ev (map fst (st_units s)) (map (fun E => s_path (e_scope E)) (st_stack s)) post = true ->
@@ -759,7 +748,7 @@ Lemma run_spec all :
             (exists S0, In S0 all /\ In r (chunkE all S0)) \/
             (exists S0, In S0 all /\ In r (chunkX all S0)).
 Proof.
-  intros ND NE LG SF Hsub1. induction post as [|ev post IH]; intros s entered exited hc Hall Hwf HI Hrel Hout r.
+  intros ND NE LG. induction post as [|ev post IH]; intros s entered exited hc Hall Hwf HI Hrel Hout r.
   - simpl in *. rewrite app_nil_r in Hall. subst entered.
     destruct (st_stack s) eqn:Hs; [|discriminate]. simpl in Hwf.
     rewrite Hout. split; (intros [H|(S0 & H1 & H2)]; [now left|]); right; exists S0; split; auto.
@@ -868,33 +857,21 @@ Qed.
 
 
 
-Lemma sub_free_of evs : sub_shadow_free evs = true -> sub_free (scopes_of evs).
+(* For every legal unit the slots FORD fills are those of the Spec *)
+Theorem full_correct evs :
+  wf_events evs = true -> scopes_legal evs = true ->
+  forall r, In r (correlate evs) <-> In r (spec evs).
 Proof.
-  unfold sub_shadow_free. rewrite forallb_forall. intros H Sc c n HS Hk Hn.
-  specialize (H Sc HS). rewrite Hk in H. rewrite forallb_forall in H.
-  assert (Hc : In c [CProc; CAbs; CType]) by (destruct c; simpl; auto).
-  specialize (H c Hc). rewrite forallb_forall in H. specialize (H n Hn).
-  unfold cls_look. destruct c; destruct (spec_resolver _ _ _ n); congruence.
-Qed.
-
-(* For every legal unit the slots FORD fills are those of the Spec in which procedure(n) is read
-   "a visible procedure n, else a visible abstract interface n" *)
-Theorem model_is_spec_procs_first evs :
-  wf_events evs = true -> scopes_legal evs = true -> sub_shadow_free evs = true ->
-  forall r, In r (correlate evs) <-> In r (spec_procs_first evs).
-Proof.
-  intros Hwf Hl Hsf r. unfold wf_events in Hwf. apply andb_true_iff in Hwf as [Hwf Hnd].
+  intros Hwf Hl r. unfold wf_events in Hwf. apply andb_true_iff in Hwf as [Hwf Hnd].
   set (all := scopes_of evs) in *.
   assert (ND : NoDup (map s_path all)) by now apply nodup_paths_NoDup.
   assert (NE : forall S0, In S0 all -> s_path S0 <> []).
   { intros S0 H. apply scopes_of_In in H. now apply (wf_ev_facts [] [] evs S0 Hwf). }
-  assert (Hsub1 : forall S0, In S0 all -> s_kind S0 = KSub -> length (s_path S0) = 1).
-  { intros S0 H. apply scopes_of_In in H. now apply (wf_ev_facts [] [] evs S0 Hwf). }
   assert (LG : forall S0, In S0 all -> scope_legal S0 = true).
   { unfold scopes_legal in Hl. rewrite forallb_forall in Hl. exact Hl. }
-  pose proof (run_spec all ND NE LG (sub_free_of evs Hsf) Hsub1 evs init_state [] [] []) as H.
+  pose proof (run_spec all ND NE LG evs init_state [] [] []) as H.
   unfold correlate. rewrite H; clear H.
-  - unfold spec_procs_first. fold all. rewrite in_flat_map. unfold chunkE, chunkX. split.
+  - unfold spec. fold all. rewrite in_flat_map. unfold chunkE, chunkX. split.
     + intros [(S0 & H1 & H2)|(S0 & H1 & H2)]; exists S0; (split; [exact H1|]); rewrite map_app, in_app_iff; auto.
     + intros (S0 & H1 & H2). rewrite map_app, in_app_iff in H2. destruct H2; [left | right]; eauto.
   - reflexivity.
@@ -902,35 +879,6 @@ Proof.
   - apply init_inv.
   - simpl. tauto.
   - simpl. intros r0. split; [tauto|]. intros [(S0 & [] & _)|(S0 & [] & _)].
-Qed.
-
-(* the two readings of procedure(n) coincide unless an inner abstract interface hides an outer procedure *)
-Lemma spec_procs_first_eq evs : procabs_consistent evs = true -> spec_procs_first evs = spec evs.
-Proof.
-  intros H. unfold spec_procs_first, spec. unfold procabs_consistent in H. rewrite forallb_forall in H.
-  apply flat_map_ext_in'. intros Sc HS. apply map_ext_in. intros q Hq.
-  specialize (H Sc HS). rewrite forallb_forall in H. specialize (H q Hq).
-  unfold answer. f_equal. unfold procs_first. destruct (q_look q); auto.
-  unfold procabs_ok in H. apply opt_ent_eqb_eq in H. now rewrite H.
-Qed.
-
-Theorem partial_correct evs :
-  wf_events evs = true -> scopes_legal evs = true -> sub_shadow_free evs = true -> procabs_consistent evs = true ->
-  forall r, In r (correlate evs) <-> In r (spec evs).
-Proof.
-  intros Hwf Hl Hsf Hp r. rewrite <- (spec_procs_first_eq evs Hp). now apply model_is_spec_procs_first.
-Qed.
-
-(* every slot that is not a procedure(n) reference: no abstract-interface region *)
-Theorem types_and_procs_correct evs :
-  wf_events evs = true -> scopes_legal evs = true -> sub_shadow_free evs = true ->
-  forall r, r_look r <> LProcAbs -> (In r (correlate evs) <-> In r (spec evs)).
-Proof.
-  intros Hwf Hl Hsf r Hr. rewrite (model_is_spec_procs_first evs Hwf Hl Hsf r).
-  unfold spec_procs_first, spec. rewrite !in_flat_map.
-  split; intros (Sc & HS & Hin); exists Sc; (split; [exact HS|]);
-    apply in_map_iff in Hin as (q & Eq & Hq); apply in_map_iff; exists q; (split; [|exact Hq]);
-    subst r; unfold answer in *; simpl in *; f_equal; unfold procs_first; destruct (q_look q); auto; congruence.
 Qed.
 
 (* ================================================================== 3. witnesses and examples *)
@@ -1012,25 +960,18 @@ Definition ex_subs : list event :=
              mkV "x5" (Some (TRType (s "nosuch_t")))] [] ["s1"]); Exit].
 Local Close Scope string_scope.
 
-Definition refuted_by (evs : list event) (r : res) : Prop :=
-  wf_events evs = true /\ scopes_legal evs = true /\ In r (correlate evs) /\ ~ In r (spec evs).
-
-(* inside s1, "t" is s1's own type; FORD takes the module's *)
-Lemma refuted_sub_shadow :
-  refuted_by w_subshadow {| r_scope := map s ["s1"]%string; r_slot := SVar (s "v"); r_look := LType;
-                            r_name := s "t"; r_ent := Some (map s ["m"; "t"]%string) |}
-  /\ sub_shadow_free w_subshadow = false /\ procabs_consistent w_subshadow = true.
+(* inside s1, "t" is s1's own type (FORD took the module's before the repair of the submodule merge) *)
+Example fixed_sub_shadow :
+  wf_events w_subshadow = true /\ scopes_legal w_subshadow = true /\  In {| r_scope := map s ["s1"]%string; r_slot := SVar (s "v"); r_look := LType;
+        r_name := s "t"; r_ent := Some (map s ["s1"; "t"]%string) |} (correlate w_subshadow).
 Proof.
-  split; [|split; vm_compute; reflexivity]. split; [vm_compute; reflexivity|]. split; [vm_compute; reflexivity|]. split.
-  - vm_compute. repeat (first [left; reflexivity | right]).
-  - apply not_in_spec. vm_compute. reflexivity.
+  repeat split; try (vm_compute; reflexivity). vm_compute. repeat (first [left; reflexivity | right]).
 Qed.
 (* a chain of submodules: s2 sees the module's t, lib's u (through s1's USE, which hides the
    module's u), the module's helper and s1's local1; an undeclared name stays a string *)
 Example ex_subs_hypotheses :
-  wf_events ex_subs = true /\ scopes_legal ex_subs = true /\ sub_shadow_free ex_subs = true /\
-  procabs_consistent ex_subs = true /\
-  In {| r_scope := map s ["s2"]%string; r_slot := SVar (s "x1"); r_look := LType; r_name := s "t";
+  wf_events ex_subs = true /\ scopes_legal ex_subs = true /\
+   In {| r_scope := map s ["s2"]%string; r_slot := SVar (s "x1"); r_look := LType; r_name := s "t";
         r_ent := Some (map s ["m"; "t"]%string) |} (correlate ex_subs) /\
   In {| r_scope := map s ["s2"]%string; r_slot := SVar (s "x2"); r_look := LType; r_name := s "u";
         r_ent := Some (map s ["lib"; "u"]%string) |} (correlate ex_subs) /\
@@ -1042,31 +983,28 @@ Proof.
   repeat split; try (vm_compute; reflexivity); vm_compute; repeat (first [left; reflexivity | right]).
 Qed.
 
-(* inside a, "x" is a's abstract interface; FORD takes the module procedure x *)
-Lemma refuted_abs_over_proc :
-  refuted_by w_absproc {| r_scope := map s ["m"; "a"]%string; r_slot := SVar (s "p"); r_look := LProcAbs;
-                          r_name := s "x"; r_ent := Some (map s ["m"; "x"]%string) |}
-  /\ procabs_consistent w_absproc = false /\ sub_shadow_free w_absproc = true.
+(* inside a, "x" is a's abstract interface (FORD took the module procedure x before an abstract
+   interface hid the host's procedure of the same name) *)
+Example fixed_abs_over_proc :
+  wf_events w_absproc = true /\ scopes_legal w_absproc = true /\
+  In {| r_scope := map s ["m"; "a"]%string; r_slot := SVar (s "p"); r_look := LProcAbs;
+        r_name := s "x"; r_ent := Some (map s ["m"; "a"; "x"]%string) |} (correlate w_absproc).
 Proof.
-  split; [|split; vm_compute; reflexivity]. split; [vm_compute; reflexivity|]. split; [vm_compute; reflexivity|]. split.
-  - vm_compute. repeat (first [left; reflexivity | right]).
-  - apply not_in_spec. vm_compute. reflexivity.
+  repeat split; try (vm_compute; reflexivity). vm_compute. repeat (first [left; reflexivity | right]).
 Qed.
 
 (* the two defects repaired in FortranCodeUnit.correlate: their witnesses now get Fortran's answer
    (a's own helper; nothing for the type that only the sibling declares) *)
 Example fixed_proc_shadow :
-  wf_events w_shadow = true /\ scopes_legal w_shadow = true /\ sub_shadow_free w_shadow = true /\
-  procabs_consistent w_shadow = true /\
-  In {| r_scope := map s ["m"; "a"]%string; r_slot := SVar (s "p"); r_look := LProcAbs;
+  wf_events w_shadow = true /\ scopes_legal w_shadow = true /\
+   In {| r_scope := map s ["m"; "a"]%string; r_slot := SVar (s "p"); r_look := LProcAbs;
         r_name := s "helper"; r_ent := Some (map s ["m"; "a"; "helper"]%string) |} (correlate w_shadow).
 Proof.
   repeat split; try (vm_compute; reflexivity). vm_compute. repeat (first [left; reflexivity | right]).
 Qed.
 Example fixed_sibling_leak :
-  wf_events w_leak = true /\ scopes_legal w_leak = true /\ sub_shadow_free w_leak = true /\
-  procabs_consistent w_leak = true /\
-  In {| r_scope := map s ["m"; "b"]%string; r_slot := SVar (s "y"); r_look := LType;
+  wf_events w_leak = true /\ scopes_legal w_leak = true /\
+   In {| r_scope := map s ["m"; "b"]%string; r_slot := SVar (s "y"); r_look := LType;
         r_name := s "t"; r_ent := None |} (correlate w_leak) /\
   In {| r_scope := map s ["m"]%string; r_slot := SVar (s "z"); r_look := LType;
         r_name := s "t"; r_ent := None |} (correlate w_leak) /\
@@ -1075,6 +1013,47 @@ Example fixed_sibling_leak :
 Proof.
   repeat split; try (vm_compute; reflexivity); vm_compute; repeat (first [left; reflexivity | right]).
 Qed.
+
+(* hiding across the two kinds of procedure identifiers:
+   module m: subroutines x, y, z; generic gg with module procedures x, z
+     subroutine a: use lib, only: x (an abstract interface); abstract interface y;
+                   procedure(x) :: p; procedure(y) :: q; procedure(z) :: r
+                   type t with  procedure :: b => x  (illegal Fortran: x is not a procedure there;
+                                the slot stays a string)  and  procedure :: c => z *)
+Local Open Scope string_scope.
+Definition ex_hiding : list event :=
+  [Enter (mkS ["m"] KUnit ["x"; "y"; "z"; "a"; "gg"] [] [] [{| g_name := s "gg"; g_modprocs := [s "x"; s "z"] |}] [] []);
+   Enter (mkS ["m"; "x"] KProc [] [] [] [] [] []); Exit;
+   Enter (mkS ["m"; "y"] KProc [] [] [] [] [] []); Exit;
+   Enter (mkS ["m"; "z"] KProc [] [] [] [] [] []); Exit;
+   Enter (mkS ["m"; "a"] KProc [] ["y"]
+            [mkT "t" None [] [{| b_name := s "b"; b_deferred := false; b_proto := None; b_targets := [s "x"] |};
+                              {| b_name := s "c"; b_deferred := false; b_proto := None; b_targets := [s "z"] |}] []] []
+            [mkV "p" (Some (TRProc (s "x"))); mkV "q" (Some (TRProc (s "y"))); mkV "r" (Some (TRProc (s "z")))]
+            [(CAbs, (s "x", map s ["lib"; "x"]))]);
+   Enter (mkS ["m"; "a"; "y"] KBody [] [] [] [] [] []); Exit;
+   Exit; Exit].
+Local Close Scope string_scope.
+Definition ent_of (evs : list event) (p : list string) (d : sdesc) : option (option ent) :=
+  match find (fun r => list_eqb str_eqb (r_scope r) (map s p)
+                       && match r_slot r, d with
+                          | SVar a, SVar b => str_eqb a b
+                          | SBindTarget t1 b1 i1, SBindTarget t2 b2 i2 => str_eqb t1 t2 && str_eqb b1 b2 && Nat.eqb i1 i2
+                          | SModproc g1 i1, SModproc g2 i2 => str_eqb g1 g2 && Nat.eqb i1 i2
+                          | _, _ => false
+                          end) (correlate evs) with
+  | Some r => Some (r_ent r)
+  | None => None
+  end.
+Example ex_hiding_facts :
+  wf_events ex_hiding = true /\ scopes_legal ex_hiding = true /\
+  ent_of ex_hiding ["m"; "a"]%string (SVar (s "p")) = Some (Some (map s ["lib"; "x"]%string)) /\
+  ent_of ex_hiding ["m"; "a"]%string (SVar (s "q")) = Some (Some (map s ["m"; "a"; "y"]%string)) /\
+  ent_of ex_hiding ["m"; "a"]%string (SVar (s "r")) = Some (Some (map s ["m"; "z"]%string)) /\
+  ent_of ex_hiding ["m"; "a"]%string (SBindTarget (s "t") (s "b") 0) = Some None /\
+  ent_of ex_hiding ["m"; "a"]%string (SBindTarget (s "t") (s "c") 0) = Some (Some (map s ["m"; "z"]%string)) /\
+  ent_of ex_hiding ["m"]%string (SModproc (s "gg") 0) = Some (Some (map s ["m"; "x"]%string)).
+Proof. repeat split; vm_compute; reflexivity. Qed.
 
 (* a unit with unique names: every kind of slot, three nesting levels, an interface body, names
    obtained by use association, and names declared nowhere *)
@@ -1106,9 +1085,8 @@ Definition ex_unit : list event :=
 Local Close Scope string_scope.
 
 Example ex_unit_hypotheses :
-  wf_events ex_unit = true /\ scopes_legal ex_unit = true /\ sub_shadow_free ex_unit = true /\
-  procabs_consistent ex_unit = true /\
-  length (correlate ex_unit) = 24 /\
+  wf_events ex_unit = true /\ scopes_legal ex_unit = true /\
+   length (correlate ex_unit) = 24 /\
   existsb (fun r => match r_ent r with Some _ => true | None => false end) (correlate ex_unit) = true /\
   existsb (fun r => match r_ent r with Some _ => false | None => true end) (correlate ex_unit) = true /\
   existsb (fun r => match r_look r with LProcAbs => true | _ => false end) (correlate ex_unit) = true.
